@@ -29,7 +29,8 @@ TRf ==
        <<"C04-sample-after-its-file-window", ~Lt(ld, Mul(endms, E.n))>>,
        <<"C04-subdirectory-time", Mul(E.qs, E.sc) # E.sub
                                   \/ ~Le(Mul(E.sub, K1000), E.name) \/ ~Lt(E.name, Mul(Add(E.sub, E.sc), K1000))>>,
-       <<"C04-subdirectory-name", ~SubdirNameOK(E)>>,
+       <<"C04-subdirectory-name", ~SubdirNameOK(E) \/ (Has(E, "subok") /\ ~E.subok)>>,     \* (subok: the file lies in a directory
+                                                                                         \*  whose name has the subdirectory form)
        <<"C04-continuous-file-window", E.cont /\ (~CeilIs(E.first, E.name, E.n, E.d, K1000)
                                                   \/ ~CeilIs(Add(E.last, One), endms, E.n, E.d, K1000))>>,
        <<"C04-index-in-two-files", E.overlap>>,
